@@ -486,3 +486,274 @@ Section ArgMax.
     - intros j Hj. rewrite <- Hnth by lia. apply Hgt. exact Hj.
   Qed.
 End ArgMax.
+
+(* ================================================================== forward / backward duality *)
+(* the accumulation program that is the transpose of a data movement: gx[src] += gy[dst] *)
+Definition mov_transposed (p : mov) : acc := map (fun e => (snd (snd e), fst e)) p.
+(* an accumulation / pair program read as a single-operand data movement t[dst] := x[src] *)
+Definition acc_as_mov (p : acc) : mov := map (fun e => (fst e, (0, snd e))) p.
+Definition mov_as_acc (p : mov) : acc := map (fun e => (fst e, snd (snd e))) p.
+(* every source index 0..n-1 is read exactly once *)
+Definition srcs_cover (p : mov) (n : nat) : Prop :=
+  Permutation (map (fun e => snd (snd e)) p) (seq 0 n).
+
+Lemma covers_NoDup {A} (p : list (nat * A)) n : covers p n -> NoDup p.
+Proof.
+  intro H. apply (NoDup_map_inv fst). apply (Permutation_NoDup (Permutation_sym H)). apply seq_NoDup.
+Qed.
+
+Section Duality.
+  Variable T : Type.
+  Variables (zero : T) (add mul : T -> T -> T).
+  Hypothesis add_comm : forall a b, add a b = add b a.
+  Hypothesis add_assoc : forall a b c, add a (add b c) = add (add a b) c.
+  Hypothesis add_0_l : forall a, add zero a = a.
+  Hypothesis mul_add_distr_r : forall a b c, mul (add a b) c = add (mul a c) (mul b c).
+  Hypothesis mul_0_l : forall a, mul zero a = zero.
+
+  (* <gy, F dx> for the forward program F: sum over its pairs of gy[dst] * dx[src] *)
+  Fixpoint fw_pairing (p : mov) (gy dx : list T) : T :=
+    match p with
+    | [] => zero
+    | (d, (_, s)) :: r => add (mul (nth d gy zero) (nth s dx zero)) (fw_pairing r gy dx)
+    end.
+
+  Lemma gather_sum_transposed p gy dx :
+    gather_sum T zero add mul (mov_transposed p) gy dx = fw_pairing p gy dx.
+  Proof.
+    induction p as [|[d [k s]] r IH]; cbn [mov_transposed map gather_sum fw_pairing fst snd]; [reflexivity|].
+    f_equal. exact IH.
+  Qed.
+
+  Lemma gather_sum_perm p q gy dx : Permutation p q ->
+    gather_sum T zero add mul p gy dx = gather_sum T zero add mul q gy dx.
+  Proof.
+    induction 1 as [|[d s] l l' _ IH|[d1 s1] [d2 s2] l|l l' l'' _ IH1 _ IH2]; cbn [gather_sum].
+    - reflexivity.
+    - f_equal. exact IH.
+    - rewrite !add_assoc. f_equal. apply add_comm.
+    - rewrite IH1. exact IH2.
+  Qed.
+
+  (* a backward program that is (a rearrangement of) the transposed forward program computes
+     the adjoint, accumulating on top of whatever gx holds *)
+  Theorem transposed_adjoint (q : acc) (fw : mov) gy gx dx :
+    Permutation q (mov_transposed fw) ->
+    acc_in_bounds q (length gx) (length gy) -> length dx = length gx ->
+    dot T zero add mul (scatter T zero add q gy gx) dx
+    = add (dot T zero add mul gx dx) (fw_pairing fw gy dx).
+  Proof.
+    intros Hp Hb Hl.
+    rewrite (scatter_adjoint T zero add mul add_comm add_assoc add_0_l mul_add_distr_r q gy gx dx Hb Hl).
+    f_equal. rewrite (gather_sum_perm _ _ gy dx Hp). apply gather_sum_transposed.
+  Qed.
+End Duality.
+
+(* ================================================================== transpose *)
+Section Transpose.
+  Variables (sx sy : tshape) (d1 d2 bs : nat).
+  Hypothesis Hd1 : tget sx 0 = d1.
+  Hypothesis Hd2 : tget sx 1 = d2.
+  Hypothesis Hbs : tbatch sy = bs.
+  Hypothesis Hsx : tsize sx = d1 * d2 * bs.
+  Hypothesis Hsy : tsize sy = d2 * d1 * bs.
+
+  (* y[j, i] = x[i, j] in every sample (y has shape {d2, d1}) *)
+  Theorem transpose_fw_spec d k s :
+    In (d, (k, s)) (transpose_fw sx sy) <->
+    exists i j b, i < d1 /\ j < d2 /\ b < bs /\ k = 0 /\
+      d = flat d2 d1 j i b /\ s = flat d1 d2 i j b.
+  Proof.
+    unfold transpose_fw. rewrite Hd1, Hd2, Hbs. rewrite In_flat_map2. split.
+    - intros [b [Hb H]]. apply In_flat_map2 in H. destruct H as [j [Hj H]].
+      apply In_map_range in H. destruct H as [i [Hi E]]. injection E as -> -> ->.
+      exists i, j, b. unfold flat. repeat split; try assumption; ring.
+    - intros [i [j [b [Hi [Hj [Hb [-> [-> ->]]]]]]]]. exists b. split; [exact Hb|].
+      apply In_flat_map2. exists j. split; [exact Hj|]. apply In_map_range. exists i. split; [exact Hi|].
+      unfold flat. f_equal; [ring|]. f_equal. ring.
+  Qed.
+
+  Lemma transpose_fw_length : length (transpose_fw sx sy) = d2 * d1 * bs.
+  Proof.
+    unfold transpose_fw. rewrite Hd1, Hd2, Hbs.
+    rewrite (length_flat_map2_const bs (d2 * d1)); [lia|]. intro b.
+    rewrite (length_flat_map2_const d2 d1); [lia|]. intro j.
+    unfold range. rewrite map_length, seq_length. reflexivity.
+  Qed.
+
+  (* every element of y is written exactly once *)
+  Theorem transpose_fw_covers : covers (transpose_fw sx sy) (tsize sy).
+  Proof.
+    rewrite Hsy. apply covers_of_surj; [exact transpose_fw_length|]. intros d Hd.
+    destruct (Nat.eq_dec d2 0) as [E|N2]; [rewrite E in Hd; lia|].
+    destruct (Nat.eq_dec d1 0) as [E|N1]; [rewrite E in Hd; lia|].
+    destruct (flat_split d2 d1 bs d ltac:(lia) ltac:(lia) Hd) as [j [i [b [Hj [Hi [Hb ->]]]]]].
+    apply in_map_iff. exists (flat d2 d1 j i b, (0, flat d1 d2 i j b)). split; [reflexivity|].
+    apply transpose_fw_spec. exists i, j, b. auto 10.
+  Qed.
+
+  (* no read outside x *)
+  Theorem transpose_fw_in_bounds : mov_in_bounds (transpose_fw sx sy) [tsize sx].
+  Proof.
+    unfold mov_in_bounds. apply Forall_forall. intros [d [k s]] Hin. cbn [fst snd].
+    apply transpose_fw_spec in Hin. destruct Hin as [i [j [b [Hi [Hj [Hb [-> [_ ->]]]]]]]].
+    cbn [nth]. rewrite Hsx. apply flat_lt; assumption.
+  Qed.
+
+  (* every element of x is read exactly once: the map is a bijection *)
+  Theorem transpose_fw_srcs_cover : srcs_cover (transpose_fw sx sy) (tsize sx).
+  Proof.
+    unfold srcs_cover. rewrite Hsx. apply perm_seq_of_surj.
+    - rewrite map_length, transpose_fw_length. ring.
+    - intros s Hs.
+      destruct (Nat.eq_dec d1 0) as [E|N1]; [rewrite E in Hs; lia|].
+      destruct (Nat.eq_dec d2 0) as [E|N2]; [rewrite E in Hs; lia|].
+      destruct (flat_split d1 d2 bs s ltac:(lia) ltac:(lia) Hs) as [i [j [b [Hi [Hj [Hb ->]]]]]].
+      apply in_map_iff. exists (flat d2 d1 j i b, (0, flat d1 d2 i j b)). split; [reflexivity|].
+      apply transpose_fw_spec. exists i, j, b. auto 10.
+  Qed.
+
+  (* transpose_bw_impl is inplace_add(transpose_fw(gy), gx): the forward kernel run on the
+     swapped shapes.  Its pairs are the transposed pairs of the forward program. *)
+  Hypothesis Hd1' : tget sy 0 = d2.
+  Hypothesis Hd2' : tget sy 1 = d1.
+  Hypothesis Hbs' : tbatch sx = bs.
+
+  Theorem transpose_bw_transposed :
+    Permutation (mov_as_acc (transpose_fw sy sx)) (mov_transposed (transpose_fw sx sy)).
+  Proof.
+    assert (Hspec' : forall d k s, In (d, (k, s)) (transpose_fw sy sx) <->
+      exists i j b, i < d2 /\ j < d1 /\ b < bs /\ k = 0 /\ d = flat d1 d2 j i b /\ s = flat d2 d1 i j b).
+    { intros d k s. unfold transpose_fw. rewrite Hd1', Hd2', Hbs'. rewrite In_flat_map2. split.
+      - intros [b [Hb H]]. apply In_flat_map2 in H. destruct H as [j [Hj H]].
+        apply In_map_range in H. destruct H as [i [Hi E]]. injection E as -> -> ->.
+        exists i, j, b. unfold flat. repeat split; try assumption; ring.
+      - intros [i [j [b [Hi [Hj [Hb [-> [-> ->]]]]]]]]. exists b. split; [exact Hb|].
+        apply In_flat_map2. exists j. split; [exact Hj|]. apply In_map_range. exists i. split; [exact Hi|].
+        unfold flat. f_equal; [ring|]. f_equal. ring. }
+    assert (Hlen' : length (transpose_fw sy sx) = d1 * d2 * bs).
+    { unfold transpose_fw. rewrite Hd1', Hd2', Hbs'.
+      rewrite (length_flat_map2_const bs (d1 * d2)); [lia|]. intro b.
+      rewrite (length_flat_map2_const d1 d2); [lia|]. intro j.
+      unfold range. rewrite map_length, seq_length. reflexivity. }
+    apply NoDup_Permutation_bis.
+    - (* destinations of the swapped program are distinct *)
+      apply (NoDup_map_inv fst). unfold mov_as_acc. rewrite map_map. cbn [fst].
+      assert (C : covers (transpose_fw sy sx) (d1 * d2 * bs)).
+      { apply covers_of_surj; [exact Hlen'|]. intros d Hd.
+        destruct (Nat.eq_dec d1 0) as [E|N1]; [rewrite E in Hd; lia|].
+        destruct (Nat.eq_dec d2 0) as [E|N2]; [rewrite E in Hd; lia|].
+        destruct (flat_split d1 d2 bs d ltac:(lia) ltac:(lia) Hd) as [j [i [b [Hj [Hi [Hb ->]]]]]].
+        apply in_map_iff. exists (flat d1 d2 j i b, (0, flat d2 d1 i j b)). split; [reflexivity|].
+        apply Hspec'. exists i, j, b. auto 10. }
+      apply (Permutation_NoDup (Permutation_sym C)). apply seq_NoDup.
+    - unfold mov_as_acc, mov_transposed. rewrite !map_length, Hlen', transpose_fw_length. lia.
+    - intros [a c] Hin. unfold mov_as_acc in Hin. apply in_map_iff in Hin.
+      destruct Hin as [[d [k s]] [E Hin]]. cbn [fst snd] in E. injection E as -> ->.
+      apply Hspec' in Hin. destruct Hin as [i [j [b [Hi [Hj [Hb [-> [-> ->]]]]]]]].
+      unfold mov_transposed. apply in_map_iff.
+      exists (flat d2 d1 i j b, (0, flat d1 d2 j i b)). split; [reflexivity|].
+      apply transpose_fw_spec. exists j, i, b. auto 10.
+  Qed.
+End Transpose.
+
+(* ================================================================== flip *)
+(* the C++ offset arithmetic: i ranges over size/n, offset = i*n - (i mod skip)*(n-1) *)
+Lemma flip_offset skip n i : 0 < skip -> 0 < n ->
+  i * n - (i mod skip) * (n - 1) = flat skip n (i mod skip) 0 (i / skip).
+Proof.
+  intros Hs Hn. unfold flat. pose proof (Nat.div_mod i skip ltac:(lia)) as E.
+  set (low := i mod skip) in *. set (high := i / skip) in *.
+  assert (E1 : low * (n - 1) + low = low * n) by (destruct n; [lia|]; replace (S n - 1) with n by lia; ring).
+  assert (E2 : i * n = low * n + skip * (n * high)) by (rewrite E; ring).
+  lia.
+Qed.
+
+Section Flip.
+  Variables (s : tshape) (dim skip n R : nat).
+  Hypothesis Hskip : tlower s dim = skip.
+  Hypothesis Hn : tget s dim = n.
+  Hypothesis Hs : tsize s = skip * n * R.
+  Hypothesis Hs0 : 0 < skip.
+  Hypothesis Hn0 : 0 < n.
+
+  Lemma flip_repeat : tsize s / n = skip * R.
+  Proof. rewrite Hs. replace (skip * n * R) with (skip * R * n) by ring. apply Nat.div_mul. lia. Qed.
+
+  (* y[low, j, high] = x[low, n-1-j, high] *)
+  Theorem flip_pairs_spec d sr :
+    In (d, sr) (flip_pairs s dim) <->
+    exists low j high, low < skip /\ j < n /\ high < R /\
+      d = flat skip n low j high /\ sr = flat skip n low (n - 1 - j) high.
+  Proof.
+    unfold flip_pairs. rewrite Hskip, Hn, flip_repeat. rewrite In_flat_map2. split.
+    - intros [j [Hj H]]. apply In_map_range in H. destruct H as [i [Hi E]]. cbv zeta in E.
+      rewrite (flip_offset skip n i Hs0 Hn0) in E. injection E as -> ->.
+      exists (i mod skip), j, (i / skip).
+      split; [apply Nat.mod_upper_bound; lia|]. split; [exact Hj|].
+      split; [apply Nat.div_lt_upper_bound; lia|]. unfold flat. split; [ring|].
+      replace (n - j - 1) with (n - 1 - j) by lia. ring.
+    - intros [low [j [high [Hl [Hj [Hh [-> ->]]]]]]]. exists j. split; [exact Hj|].
+      apply In_map_range. exists (low + skip * high). split.
+      + assert (skip * (high + 1) <= skip * R) by (apply Nat.mul_le_mono_l; lia). lia.
+      + cbv zeta. rewrite (flip_offset skip n _ Hs0 Hn0).
+        rewrite (Nat.mul_comm skip high), Nat.mod_add, Nat.mod_small, Nat.div_add, Nat.div_small by lia.
+        unfold flat. replace (n - j - 1) with (n - 1 - j) by lia. f_equal; ring.
+  Qed.
+
+  Lemma flip_pairs_length : length (flip_pairs s dim) = skip * n * R.
+  Proof.
+    unfold flip_pairs. rewrite Hskip, Hn, flip_repeat.
+    rewrite (length_flat_map2_const n (skip * R)); [ring|]. intro j.
+    unfold range. rewrite map_length, seq_length. reflexivity.
+  Qed.
+
+  (* every output element written exactly once *)
+  Theorem flip_pairs_covers : covers (flip_pairs s dim) (tsize s).
+  Proof.
+    rewrite Hs. apply covers_of_surj; [exact flip_pairs_length|]. intros d Hd.
+    destruct (flat_split skip n R d Hs0 Hn0 Hd) as [low [j [high [Hl [Hj [Hh ->]]]]]].
+    apply in_map_iff. exists (flat skip n low j high, flat skip n low (n - 1 - j) high).
+    split; [reflexivity|]. apply flip_pairs_spec. exists low, j, high. auto 10.
+  Qed.
+
+  Theorem flip_pairs_in_bounds : acc_in_bounds (flip_pairs s dim) (tsize s) (tsize s).
+  Proof.
+    unfold acc_in_bounds. apply Forall_forall. intros [d sr] Hin. cbn [fst snd].
+    apply flip_pairs_spec in Hin. destruct Hin as [low [j [high [Hl [Hj [Hh [-> ->]]]]]]].
+    rewrite Hs. split; apply flat_lt; lia.
+  Qed.
+
+  (* the pair set is symmetric: flipping is an involution *)
+  Theorem flip_pairs_symmetric d sr : In (d, sr) (flip_pairs s dim) -> In (sr, d) (flip_pairs s dim).
+  Proof.
+    intro Hin. apply flip_pairs_spec in Hin. destruct Hin as [low [j [high [Hl [Hj [Hh [-> ->]]]]]]].
+    apply flip_pairs_spec. exists low, (n - 1 - j), high.
+    split; [exact Hl|]. split; [lia|]. split; [exact Hh|]. split; [reflexivity|].
+    replace (n - 1 - (n - 1 - j)) with j by lia. reflexivity.
+  Qed.
+
+  (* each destination has one source and vice versa *)
+  Theorem flip_pairs_functional d1 s1 d2 s2 :
+    In (d1, s1) (flip_pairs s dim) -> In (d2, s2) (flip_pairs s dim) -> (d1 = d2 <-> s1 = s2).
+  Proof.
+    intros H1 H2. apply flip_pairs_spec in H1, H2.
+    destruct H1 as [l1 [j1 [h1 [Hl1 [Hj1 [Hh1 [-> ->]]]]]]].
+    destruct H2 as [l2 [j2 [h2 [Hl2 [Hj2 [Hh2 [-> ->]]]]]]]. split; intro E.
+    - apply flat_inj in E; try lia. destruct E as [-> [-> ->]]. reflexivity.
+    - apply flat_inj in E; try lia. destruct E as [-> [Ej ->]]. replace j2 with j1 by lia. reflexivity.
+  Qed.
+
+  (* hence the backward kernel's program (the SAME pairs, accumulated) is a rearrangement of the
+     transposed forward program *)
+  Theorem flip_bw_transposed :
+    Permutation (flip_pairs s dim) (mov_transposed (acc_as_mov (flip_pairs s dim))).
+  Proof.
+    pose proof (covers_NoDup _ _ flip_pairs_covers) as ND.
+    apply NoDup_Permutation_bis.
+    - exact ND.
+    - unfold mov_transposed, acc_as_mov. rewrite !map_length. lia.
+    - intros [d sr] Hin. unfold mov_transposed, acc_as_mov. rewrite map_map. cbn [fst snd].
+      apply in_map_iff. exists (sr, d). split; [reflexivity|]. apply flip_pairs_symmetric. exact Hin.
+  Qed.
+End Flip.
